@@ -89,6 +89,10 @@ BAD_REPLIES = {
     'oversize-terminated': b'HTTP/1.1 200 OK\r\nX-Pad: ' + b'p' * 17000 + b'\r\n\r\n',
     'oversize-unterminated': b'HTTP/1.1 200 OK\r\nX-Pad: ' + b'p' * 40000,
     'only-crlf': b'\r\n\r\n',
+    # an interim 1xx answer with a 200 behind it: the answer to CONNECT is the first block, and it is not a 200
+    'status-100-then-200': b'HTTP/1.1 100 Continue\r\n\r\nHTTP/1.1 200 Connection established\r\n\r\n',
+    'status-102-then-200': b'HTTP/1.1 102 Processing\r\nX: y\r\n\r\nHTTP/1.1 200 OK\r\n\r\n',
+    'status-407-then-200': b'HTTP/1.1 407 Proxy Authentication Required\r\n\r\nHTTP/1.1 200 OK\r\n\r\n',
     # exactly 1..4 bytes over the limit (terminated): the part that crosses it is the blank line itself
     'oversize-terminated-16385': b'HTTP/1.1 200 OK\r\nX-Pad: ' + b'p' * (16385 - 28) + b'\r\n\r\n',
     'oversize-terminated-16386': b'HTTP/1.1 200 OK\r\nX-Pad: ' + b'p' * (16386 - 28) + b'\r\n\r\n',
